@@ -102,9 +102,7 @@ Proof.
   intros is_root targets doc rhs out p H F. unfold merge_at in H.
   destruct (is_none rhs); [now inversion H|].
   destruct targets as [|t0 ts]; [discriminate|].
-  destruct (scalar_clobbers is_root (t0 :: ts) doc rhs).
-  - destruct (existsb _ (t0 :: ts)); [discriminate|]. eapply fold_frame; eauto.
-  - eapply fold_frame; eauto.
+  eapply fold_frame; eauto.
 Qed.
 
 (* no target: "a merge was not performed" *)
@@ -112,17 +110,54 @@ Theorem no_target_is_error : forall is_root doc rhs,
   is_none rhs = false -> merge_at lit cfg is_root [] doc rhs = Raise MergeExc.
 Proof. intros. unfold merge_at. now rewrite H. Qed.
 
-(* each target holds what the per-target dispatch made of its old content *)
+Lemma foldM_app_ok : forall (f : node -> loc -> outcome node) l1 l2 d out,
+  foldM f (l1 ++ l2) d = Ok out -> exists m, foldM f l1 d = Ok m /\ foldM f l2 m = Ok out.
+Proof.
+  induction l1 as [|x l1 IH]; intros l2 d out H; simpl in *; [eauto|].
+  destruct (f d x) as [d1| |]; simpl in *; try discriminate. eauto.
+Qed.
+
+(* EVERY target holds what the per-target dispatch made of its old content:
+   the targets before and after [t] in the list all lie apart from [t] *)
+Theorem every_target_holds_dispatch : forall is_root pre t post doc rhs out old,
+  is_none rhs = false ->
+  merge_at lit cfg is_root (pre ++ t :: post) doc rhs = Ok out ->
+  Forall (fun t' => leaves t' t) (pre ++ post) ->
+  lookup doc t = Some old ->
+  exists new, merge_target lit cfg is_root rhs old = Ok new /\ lookup out t = Some new.
+Proof.
+  intros is_root pre t post doc rhs out old Hn H F Hl. unfold merge_at in H. rewrite Hn in H.
+  assert (Hf : foldM (fun d t0 => update_at t0 (merge_target lit cfg is_root rhs) d) (pre ++ t :: post) doc = Ok out).
+  { destruct (pre ++ t :: post) eqn:E; [destruct pre; discriminate|exact H]. }
+  clear H. apply Forall_app in F. destruct F as [Fpre Fpost].
+  apply foldM_app_ok in Hf. destruct Hf as [m [Hpre Hrest]].
+  simpl in Hrest.
+  destruct (update_at t (merge_target lit cfg is_root rhs) m) as [d1| |] eqn:E; simpl in Hrest; try discriminate.
+  assert (Lm : lookup m t = Some old) by (rewrite (fold_frame _ _ _ _ _ Hpre Fpre); exact Hl).
+  destruct (update_lookup _ _ _ _ _ E Lm) as [new [Hnew Lnew]].
+  exists new. split; [exact Hnew|]. rewrite (fold_frame _ _ _ _ _ Hrest Fpost). exact Lnew.
+Qed.
+
+(* the single-target case *)
 Theorem target_holds_dispatch : forall is_root t doc rhs out old,
   is_none rhs = false ->
-  scalar_clobbers is_root [t] doc rhs = false ->
   merge_at lit cfg is_root [t] doc rhs = Ok out ->
   lookup doc t = Some old ->
   exists new, merge_target lit cfg is_root rhs old = Ok new /\ lookup out t = Some new.
 Proof.
-  intros is_root t doc rhs out old Hn Hc H Hl. unfold merge_at in H. rewrite Hn, Hc in H. simpl in H.
-  destruct (update_at t (merge_target lit cfg is_root rhs) doc) as [d1| |] eqn:E; simpl in H; try discriminate.
-  inversion H; subst out. eapply update_lookup; eauto.
+  intros is_root t doc rhs out old Hn H Hl.
+  eapply (every_target_holds_dispatch is_root [] t []); eauto. constructor.
+Qed.
+
+(* what the dispatch yields is the RETURNED node of C05's per-target insert
+   (Merge.insert_any), for every target that is not the right-hand document
+   itself and not a Scalar receiving a Scalar *)
+Lemma merge_target_is_returned : forall is_root rhs t,
+  same_obj t rhs = false -> (is_leaf rhs && is_leaf t = false) ->
+  merge_target lit cfg is_root rhs t = (do m <- insert_any lit cfg t rhs; Ok (ret m)).
+Proof.
+  intros is_root rhs t Hs Hl. unfold merge_target. rewrite Hs.
+  destruct rhs, t; simpl in Hl; try discriminate; reflexivity.
 Qed.
 
 End Cfg.
